@@ -32,11 +32,21 @@ CLAIMED = {
              "correspondence over real temporary files: cycles, missing files, paths around PATH_MAX, directives not at the "
              "beginning of a line, repeated directive text, lines that only LOOK like the directive (no blank, other case, "
              "other continuation, directive at end of input), separators =,:,space,NUL,#,[ for parse_str/parse_file, "
-             "_q_makeword / qparse_queries with stop bytes incl. NUL, 0x80, 0xff, %, +.",
+             "_q_makeword / qparse_queries with stop bytes incl. NUL, 0x80, 0xff, %, +. "
+             "Formatted texts and command output: fmt_total / fmt_dup_total (the retry loop of DYNAMIC_VSPRINTF behind qaconf's "
+             "error message and qconfig's `section.key` names terminates for EVERY formatted length and returns exactly the "
+             "text; that the macro of the current header is this loop - 1024, doubled - is the regenerated obligation "
+             "Shapes.Conf.fmt_macro_as_modelled), qfile_read_total (qfile_read behind qsyscmd / `${!command}`: for every stream "
+             "content and every nbytes no access outside the current block, result = the bytes taken + terminator); "
+             "correspondence: `section.key` names and error messages (each error kind, the harness sizes the file path) of "
+             "EVERY total length 1020..1029, 2044..2053, 4080..4110, 8180..8200, stubbed command output of 1000..1030, "
+             "2040..2056, 4090..4100, 8190..8194 bytes, 1 MiB +-1 and 2^21-1 .. 2^22+1 bytes, qfile_read with every kind of "
+             "nbytes around the block sizes, documents of 65534..70001 lines, all under the per-call watchdog.",
         note="trusted: Lean kernel, hand transcription of the decoder loops (validated on explored inputs), gcc/ASan; "
              "wall-clock termination of compiled code is observed by timeouts, the theorem is about fuel; the include loop's buffer accesses are "
              "list operations in the model (its PATH_MAX overflow was found by the harness under ASan); popen of ${!cmd} "
-             "is stubbed on both sides. Twelve defects of the pinned tree repaired first.",
+             "is stubbed on both sides (the stub's FILE* goes through the real qsyscmd / qfile_read). Thirteen defects of the pinned "
+             "tree repaired first (the last: qfile_read wrote the terminator of a one-byte read behind its block).",
         technique="Lean 4 proof (loop invariants on an in-place buffer, induction on fuel) + differential correspondence under ASan",
         design="7/C17"),
 }
@@ -208,11 +218,16 @@ CLAIMED.update({
              "directive line is replaced by exactly the named file's content, path resolved against the including file's "
              "directory); ac_long_comment_ignored (a comment of ANY length, in any section, makes no "
              "callback and counts as one line) and ac_long_directive_rejected / ac_long_line_error (any other line longer "
-             "than MAX_LINESIZE-1 bytes: -1, \"Line is too long.\" naming that line, callbacks of the prefix only); constants "
+             "than MAX_LINESIZE-1 bytes: -1, \"Line is too long.\" naming that line, callbacks of the prefix only); "
+             "ac_line_number_range (error line and returned count are at most the size of the file, hence exactly the numbers "
+             "the C fields hold for files below 2^(8w-1) bytes, w = the regenerated width of qaconf_t.lineno: 4); constants "
              "regenerated from the headers. Correspondence: "
              "grammar-generated conforming and offending documents x option tables (take counts, types, scopes, flags), "
              "nesting, all bool spellings, number forms; INI documents with look-alike directive lines and separators from "
-             "{=,:,space,#,[}; reference oracle computed from the grammar value.",
+             "{=,:,space,#,[}; `section.key` names and error messages of every total length around 1024 * 2^k (each error "
+             "kind), `${!command}` output of every length around the block sizes of qfile_read compared with the value the "
+             "file says, documents of 65534..65540 and 70001 lines with the first offence on the last line (message names "
+             "that line) and as many directives (returned count); reference oracle computed from the grammar value.",
         note="ac_accept_iff / ac_callbacks are proved for ARBITRARILY NESTED, properly closed sections incl. refusing "
              "callbacks (induction over the document tree); over-long lines (repaired: the rest of a line that does not fit "
              "is consumed): comments of any length are covered by every document-level theorem (FLineOk has no bound for "
